@@ -2,11 +2,130 @@ package main
 
 import (
 	"go/token"
+	"go/types"
 
 	"golang.org/x/tools/go/ssa"
 )
 
-// timeModel: time.Time is abstracted to {wall:0, ext: signed 64-bit nanosecond count, loc:nil}.
+// timeModel: time.Time is abstracted to the struct {wall: 0, ext: signed 64-bit nanosecond count, loc: nil}.
+// All arithmetic and comparisons of instants are done on that count (this avoids the 64-bit multiply/divide by
+// 10^9 of the real representation, which no solver here decides). time.Now returns a fresh, non-decreasing
+// instant. Saturation of Add/Sub at the int64 limits is not modelled.
 func (e *Engine) timeModel(st *State, callee *ssa.Function, name, full string, args []Val, pos token.Pos) (Val, bool) {
+	b := e.b
+	mk := func(ns *Term) Val {
+		return StructV{f: []Val{Scalar{b.BV(64, 0)}, Scalar{ns}, Ptr{}}}
+	}
+	ns := func(v Val) (*Term, bool) {
+		s, ok := v.(StructV)
+		if !ok || len(s.f) != 3 {
+			return nil, false
+		}
+		t, ok := scalarOf(s.f[1])
+		return t, ok
+	}
+	recv := callee.Signature.Recv()
+	if recv == nil {
+		switch name {
+		case "Now":
+			key := e.inputKey(st, "time.Now")
+			t := e.declScalar(key, 64)
+			// non-negative and non-decreasing
+			e.addPC(st, b.Sle(b.BV(64, 0), t))
+			if st.lastNow != nil {
+				e.addPC(st, b.Sle(st.lastNow, t))
+			}
+			st.lastNow = t
+			return mk(t), true
+		case "Unix":
+			s, ok1 := scalarOf(args[0])
+			n, ok2 := scalarOf(args[1])
+			if !ok1 || !ok2 {
+				return Poison{"time.Unix"}, true
+			}
+			return mk(b.Add(b.Bin(OpMul, s, b.BV(64, 1000000000)), n)), true
+		case "UnixMilli":
+			s, ok1 := scalarOf(args[0])
+			if !ok1 {
+				return Poison{"time.UnixMilli"}, true
+			}
+			return mk(b.Bin(OpMul, s, b.BV(64, 1000000))), true
+		case "Since":
+			t, ok := ns(args[0])
+			if !ok {
+				return Poison{"time.Since"}, true
+			}
+			now, _ := e.timeModel(st, callee, "Now", full, nil, pos)
+			nt, _ := ns(now)
+			return Scalar{b.Sub(nt, t)}, true
+		case "Until":
+			t, ok := ns(args[0])
+			if !ok {
+				return Poison{"time.Until"}, true
+			}
+			now, _ := e.timeModel(st, callee, "Now", full, nil, pos)
+			nt, _ := ns(now)
+			return Scalar{b.Sub(t, nt)}, true
+		case "NewTimer", "NewTicker", "AfterFunc", "After", "Tick", "Sleep":
+			return e.zeroResults(callee), true
+		}
+		return nil, false
+	}
+	n, ok := derefNamed(recv.Type())
+	if !ok {
+		return nil, false
+	}
+	switch n.Obj().Name() {
+	case "Time":
+		var self Val = args[0]
+		if _, isPtr := recv.Type().(*types.Pointer); isPtr {
+			self = e.load(st, args[0], pos)
+		}
+		t, ok := ns(self)
+		if !ok {
+			return Poison{"time.Time method on unsupported value"}, true
+		}
+		switch name {
+		case "Add":
+			d, ok := scalarOf(args[1])
+			if !ok {
+				return Poison{"Time.Add"}, true
+			}
+			return mk(b.Add(t, d)), true
+		case "Sub":
+			u, ok := ns(args[1])
+			if !ok {
+				return Poison{"Time.Sub"}, true
+			}
+			return Scalar{b.Sub(t, u)}, true
+		case "After":
+			u, _ := ns(args[1])
+			return Scalar{b.Slt(u, t)}, true
+		case "Before":
+			u, _ := ns(args[1])
+			return Scalar{b.Slt(t, u)}, true
+		case "Equal":
+			u, _ := ns(args[1])
+			return Scalar{b.Eq(t, u)}, true
+		case "Compare":
+			u, _ := ns(args[1])
+			return Scalar{b.Ite(b.Slt(t, u), b.BV(64, ^uint64(0)), b.Ite(b.Eq(t, u), b.BV(64, 0), b.BV(64, 1)))}, true
+		case "IsZero":
+			return Scalar{b.Eq(t, b.BV(64, 0))}, true
+		case "UnixNano":
+			return Scalar{t}, true
+		case "Unix":
+			return Scalar{b.Bin(OpSdiv, t, b.BV(64, 1000000000))}, true
+		case "UnixMilli":
+			return Scalar{b.Bin(OpSdiv, t, b.BV(64, 1000000))}, true
+		case "UTC", "Local", "Round", "Truncate":
+			if name == "UTC" || name == "Local" {
+				return self, true
+			}
+		}
+		return Poison{"time.Time." + name + " not modelled"}, true
+	case "Timer", "Ticker":
+		return e.zeroResults(callee), true
+	}
 	return nil, false
 }
